@@ -177,6 +177,11 @@ func c02Run(c *core.Ctx) {
 			c.Stat("large_programs_production_pools", 1)
 		}
 	}
+	for _, cs := range deepCases(c) {
+		if c.Next() {
+			c02One(c, cs)
+		}
+	}
 	for _, src := range corpus.Specials() {
 		for _, v := range []*version.Version{drive.V74, drive.V72, drive.V56} {
 			if !c.Next() {
